@@ -171,6 +171,12 @@ func (m *Module) Files() map[string]string {
 					fmt.Fprintf(&sb, "\ttype %s interface{ FuncLocalOnly%d() }\n\tvar _ %s\n", n, i, n)
 				}
 				sb.WriteString("\t_ = func() {\n\t\ttype InLit interface{ X() }\n\t\tvar _ InLit\n\t}\n}\n\nvar _ = funcLocalTypes\n")
+				// the same again inside a package-level function literal (no enclosing FuncDecl)
+				sb.WriteString("\nvar funcLitLocalTypes = func() {\n")
+				for i, n := range p.FuncLocal {
+					fmt.Fprintf(&sb, "\ttype %s interface{ FuncLitLocalOnly%d() }\n\tvar _ %s\n", n, i, n)
+				}
+				sb.WriteString("}\n\nvar _ = funcLitLocalTypes\n")
 			}
 			files[p.SourceFileName(f)] = sb.String()
 		}
